@@ -5,7 +5,8 @@ Mirrors `pynguin/slicer/dynamicslicer.py` (`DynamicSlicer.slice`, `_setup_slicin
 `check_control_dependency`, `add_control_dependency`, `check_explicit_data_dependency` /
 `_check_variables` / `_check_scope_for_def`, `add_uses`, `_trace_housekeeping`,
 `map_instructions_to_lines`) and `pynguin/ga/checked_coverage.py`
-(`compute_statement_checked_lines`, `compute_assertion_checked_coverage`).
+(`compute_statement_checked_lines` with `_cleanse_included_implicit_return_none`,
+`compute_assertion_checked_coverage`).
 
 Abstraction level: one *event* per executed statement-level step (an assignment, the evaluation of
 a branch condition, a call, a return) instead of one per bytecode instruction; the operand-stack
@@ -113,8 +114,46 @@ def sliceLines (tr : Trace) (c : Nat) : List Nat := linesOf tr (sliceBack tr c)
 /-- Lines executed in this execution (what line coverage reports). -/
 def executedLines (tr : Trace) : List Nat := (tr.map (·.line)).filter (· != 0)
 
-/-- `compute_statement_checked_lines` / the assertion variant: union over all slicing criteria. -/
+/-- `compute_assertion_checked_coverage` (and `compute_statement_checked_lines` before its
+cleansing step): union over all slicing criteria. -/
 def checkedLines (tr : Trace) (crits : List Nat) : List Nat := crits.flatMap (sliceLines tr)
+
+/-! ## `compute_statement_checked_lines`: per-statement cleansing, then accumulation
+
+`retNone p` says that the step at trace position `p` is a `RETURN_CONST None` (the `return None` a
+void function ends with).  A slice is in trace order, its criterion (the statement's `STORE`) last. -/
+
+/-- `version.end_with_explicit_return_none(statement_slice[:-1])` together with
+`statement_slice[-RETURN_NONE_SIZE - 1]` (Python 3.12: `RETURN_NONE_SIZE = 1`): the line that is taken
+out of the statement's line set — the line of the `return None` directly before the criterion, when
+the slice element before it lies on another line.  (The code compares raw `lineno`s; an instruction
+of the test case has line `0` here, so the model assumes no `return None` on the line number the
+executor gives the test statements, which holds in the fragment: such a line is never line 1.) -/
+def cleanseLine (tr : Trace) (retNone : Nat → Bool) (sl : List Nat) : Option Nat :=
+  match sl.reverse with
+  | _ :: r :: q :: _ =>
+    if retNone r && (evAt tr q).line != (evAt tr r).line then some (evAt tr r).line else none
+  | _ => none
+
+/-- `_cleanse_included_implicit_return_none` on the line set of ONE statement (`set.remove`). -/
+def cleanse (tr : Trace) (retNone : Nat → Bool) (sl : List Nat) (lines : List Nat) : List Nat :=
+  match cleanseLine tr retNone sl with
+  | some l => lines.filter (· != l)
+  | none => lines
+
+/-- `statement_checked_lines` of one loop iteration: map the slice to lines, then cleanse. -/
+def stmtLines (tr : Trace) (retNone : Nat → Bool) (c : Nat) : List Nat :=
+  cleanse tr retNone (sliceBack tr c) (sliceLines tr c)
+
+/-- The loop of `compute_statement_checked_lines` over the criteria of the bound statements:
+`checked_lines_ids.update(statement_checked_lines)` — the accumulated set only ever grows. -/
+def stmtCheckedLoop (tr : Trace) (retNone : Nat → Bool) : List Nat → List Nat → List Nat
+  | [], acc => acc
+  | c :: rest, acc => stmtCheckedLoop tr retNone rest (acc ++ stmtLines tr retNone c)
+
+/-- `compute_statement_checked_lines`. -/
+def stmtCheckedLines (tr : Trace) (retNone : Nat → Bool) (crits : List Nat) : List Nat :=
+  stmtCheckedLoop tr retNone crits []
 
 /-! ## The dependence relation the slice is measured against (defined *forwards*) -/
 
